@@ -13,6 +13,33 @@ TRUSTED_EXTRA = ["Python reference of Erlang's term order (props/etf.py erl_cmp)
 IDENT = {"r", "p", "o", "e", "u"}
 
 
+_OPEN = []
+
+
+def open_ids():
+    if not _OPEN:
+        import vlib
+        _OPEN.append({k["id"] for k in vlib.known_findings(ID) if k.get("status", "open") == "open"})
+    return _OPEN[0]
+
+
+def dup_keys(t):
+    """does the term hold a map literal two of whose keys are the same Erlang value (==)?"""
+    k = t[0]
+    if k == "m":
+        ks = [etf.denote(x) for x, _ in t[1]]
+        if any(etf.erl_cmp(ks[i], ks[j]) == 0 for i in range(len(ks)) for j in range(i + 1, len(ks))):
+            return True
+        return any(dup_keys(x) or dup_keys(y) for x, y in t[1])
+    if k in ("l", "t"):
+        return any(dup_keys(x) for x in t[1])
+    if k == "L":
+        return any(dup_keys(x) for x in t[1]) or dup_keys(t[2])
+    if k == "u":
+        return any(dup_keys(x) for x in t[9])
+    return False
+
+
 def split_case(case):
     a, b = case[4:].split(" | ")
     return etf.parse_term(a), etf.parse_term(b)
@@ -36,7 +63,8 @@ def oracle(case, impl):
         return None
     cls = ordlib.pair_classes(a, b)
     if cls:
-        return ("known", sorted(cls)[0])
+        # an open class first: the pair may also have the shape of a class that has been repaired since
+        return ("known", sorted(cls, key=lambda c: (c not in open_ids(), c))[0])
     return ("violation", "cmp gives %s, Erlang's order gives %s" % (d["o"], {-1: "lt", 0: "eq", 1: "gt"}[exp]))
 
 
@@ -61,6 +89,8 @@ def run(ctx):
         b = termgen.gen_term(rng, depth=rng.choice([0, 1, 2]), big_ok=False) if rng.random() < 0.7 else a
         if ordlib.noncanonical(a) or ordlib.noncanonical(b) or etf.has_nan(etf.denote(a)) or etf.has_nan(etf.denote(b)):
             continue
+        if dup_keys(a) or dup_keys(b):
+            continue        # a map literal with one key twice is not a value
         extra.append("cmp %s | %s" % (etf.show(a), etf.show(b)))
 
     def nontrivial(c, impl):
